@@ -297,7 +297,45 @@ static int run_sweep(const std::string &dir, int shard, int nshards, int level, 
 //   u8 1 decoder | i8 -1, u8 0 (vertex attribute), u8 0 (depth first) | varint 1 | 0, 5 (int32), 3, 0, varint 0 | u8 1 (integer) | i8 -2 (no prediction), u8 0 (raw),
 //   u8 4 | values
 // Valence traversal (row.mode = "val"): no symbol bit section; start faces first, then 6 x (varint n, EncodeSymbols block) = the context vectors.
+// Sequential mesh rows (row.mode = "seq", module SeqDecoder): "DRACO" 2 2 | type 1 | method 0 | flags 0 | varint nf | varint np | u8 connectivity method |
+//   method 0: EncodeSymbols block of the 3 * nf symbols; otherwise the indices in the width the declared point count selects | attribute section as above
+//   (the sequential mesh decoder reads no per-decoder header).
+static void append_position_attribute(EncoderBuffer *b, long nvalues, bool edgebreaker) {
+  b->Encode((uint8_t)1);
+  if (edgebreaker) { b->Encode((int8_t)-1); b->Encode((uint8_t)0); b->Encode((uint8_t)0); }
+  EncodeVarint<uint32_t>(1, b);
+  b->Encode((uint8_t)0); b->Encode((uint8_t)5); b->Encode((uint8_t)3); b->Encode((uint8_t)0); EncodeVarint<uint32_t>(0, b);
+  b->Encode((uint8_t)1);
+  b->Encode((int8_t)-2); b->Encode((uint8_t)0); b->Encode((uint8_t)4);
+  for (long i = 0; i < 3 * nvalues; ++i) b->Encode((int32_t)(2 * (i + 1)));
+}
+static std::vector<char> assemble_seq(const vrt::J &row, int natt) {
+  EncoderBuffer b;
+  b.Encode("DRACO", 5);
+  b.Encode((uint8_t)2); b.Encode((uint8_t)2); b.Encode((uint8_t)1); b.Encode((uint8_t)0); b.Encode((uint16_t)0);
+  const long nf = (long)row["nf"].n, np = (long)row["npd"].n, method = (long)row["method"].n;
+  EncodeVarint<uint32_t>((uint32_t)nf, &b);
+  EncodeVarint<uint32_t>((uint32_t)np, &b);
+  b.Encode((uint8_t)method);
+  std::vector<uint32_t> vals;
+  for (int x : row["vals"].ints()) vals.push_back((uint32_t)x);
+  if (method == 0) {
+    if (!vals.empty()) EncodeSymbols(vals.data(), (int)vals.size(), 1, nullptr, &b);
+  } else {
+    for (uint32_t v : vals) {
+      if (np < 256) b.Encode((uint8_t)v);
+      else if (np < (1 << 16)) b.Encode((uint16_t)v);
+      else if (np < (1 << 21)) EncodeVarint<uint32_t>(v, &b);
+      else b.Encode((uint32_t)v);
+    }
+  }
+  if (natt == 0) { b.Encode((uint8_t)0); return std::vector<char>(b.data(), b.data() + b.size()); }
+  append_position_attribute(&b, std::min<long>(np, 64) + 2, false);     // enough values for the small point counts; the large ones run out of data (a Status)
+  return std::vector<char>(b.data(), b.data() + b.size());
+}
+
 static std::vector<char> assemble_eb(const vrt::J &row, int natt = 1) {
+  if (row["mode"].s == "seq") return assemble_seq(row, natt);
   EncoderBuffer b;
   b.Encode("DRACO", 5);
   b.Encode((uint8_t)2); b.Encode((uint8_t)2); b.Encode((uint8_t)1); b.Encode((uint8_t)1); b.Encode((uint16_t)0);
@@ -379,7 +417,7 @@ static void probe_eb(const vrt::J &row, long index, EbStats *st) {
     st->emitted++;
     std::vector<int> faces;
     if (d.ok && d.is_mesh) faces = faces_of(*d.mesh());
-    out.begin("EbProbe").i("row", index).s("mode", row["mode"].s == "val" ? "val" : "std").i("natt", natt).s("s", row["s"].s).i("nv", row["nv"].n).i("nf", row["nf"].n).i("nss", row["nss"].n)
+    out.begin("EbProbe").i("row", index).s("mode", row["mode"].s.empty() ? "std" : row["mode"].s).i("natt", natt).s("s", row["s"].s).i("nv", row["nv"].n).i("nf", row["nf"].n).i("nss", row["nss"].n)
         .s("pred", pred).s("pk", pred.substr(0, pred.find(':'))).i("pred_np", row["np"].n)
         .arr("pred_faces", row["faces"].ints()).b("ok", d.ok).b("modified", modified).b("bad_alloc", tolerated_bad_alloc)
         .i("np", d.ok ? (long long)d.pc->num_points() : 0).arr("faces", faces).raw("sv", d.ok ? struct_json(*d.pc, d.is_mesh) : "{\"np\":0,\"nf\":0,\"maxface\":-1,\"atts\":[]}").end();
